@@ -1,5 +1,7 @@
 pub mod ber;
 pub mod conv;
+pub mod dn;
+pub mod filter;
 pub mod gens;
 pub mod props;
 pub mod runner;
